@@ -53,19 +53,35 @@ def enum_schedules(drv, requests):
     return out
 
 
-def _run_chunks(cmds_inputs, timeout):
-    """run several processes concurrently; returns their stdout line lists (None on failure)"""
-    procs = [subprocess.Popen(cmd, stdout=subprocess.PIPE, stderr=subprocess.DEVNULL, text=True) for cmd in cmds_inputs]
+def _run_chunks(cmds, timeout):
+    """run several processes concurrently (stdout to files, so that none blocks on a full pipe);
+    returns their stdout line lists (None on failure)"""
+    d = common.run_dir()
+    procs = []
+    for i, cmd in enumerate(cmds):
+        path = os.path.join(d, "out_%d_%d_%d.txt" % (os.getpid(), int(time.time() * 1000) % 1000000, i))
+        f = open(path, "w")
+        procs.append((subprocess.Popen(cmd, stdout=f, stderr=subprocess.DEVNULL), f, path))
     outs = []
-    for p in procs:
+    deadline = time.time() + timeout
+    for p, f, path in procs:
+        ok = True
         try:
-            so, _ = p.communicate(timeout=timeout)
+            p.wait(timeout=max(1, deadline - time.time()))
         except subprocess.TimeoutExpired:
             p.kill()
-            so, _ = p.communicate()
+            p.wait()
+            ok = False
+        f.close()
+        if ok and p.returncode == 0:
+            with open(path) as g:
+                outs.append(g.read().rstrip("\n").split("\n"))
+        else:
             outs.append(None)
-            continue
-        outs.append(so.rstrip("\n").split("\n") if p.returncode == 0 else None)
+        try:
+            os.remove(path)
+        except OSError:
+            pass
     return outs
 
 
